@@ -237,6 +237,11 @@ func (c *Client) ExchangeWithConnContext(ctx context.Context, m *Msg, co *Conn) 
 			if r != nil && r.Id != m.Id {
 				continue
 			}
+			// A datagram that is too short to hold a header is no reply to
+			// this query either.
+			if r == nil && err == ErrShortRead {
+				continue
+			}
 			if err != nil || r.Id == m.Id {
 				break
 			}
@@ -438,6 +443,9 @@ func ExchangeConn(c net.Conn, m *Msg) (r *Msg, err error) {
 			r, err = co.ReadMsg()
 			if r != nil && r.Id != m.Id {
 				continue
+			}
+			if r == nil && err == ErrShortRead {
+				continue // too short to hold a header: no reply to this query
 			}
 			return r, err
 		}
